@@ -2,6 +2,9 @@
  * usage: heap_harness <seed> <nops> <maxsize> <keyrange>
  * Exit 0 and prints "OK ..." or exit 1 and prints "FAIL ...". */
 #include <stdint.h>
+/* short-lived harness: leak checking off */
+__attribute__((used)) const char *__asan_default_options(void);
+const char *__asan_default_options(void) { return "detect_leaks=0"; }
 #include <stdio.h>
 #include <stdlib.h>
 #include <string.h>
